@@ -145,7 +145,7 @@ def ownership(P, R, rule='C14.OWN.1'):
         if s.ev['k'] != 'store' or s.ev.get('op') != '=':
             continue
         l, r = s.ev['lhs'], s.ev.get('rhs') or {}
-        if l.get('k') == 'mem' and r.get('k') == 'mem' and l['field'] == r['field'] and l.get('t') == 'char *' and is_var(l['base']) and is_var(r['base']) and l['base']['name'] != r['base']['name']:
+        if l.get('k') == 'mem' and r.get('k') == 'mem' and l['field'] == r['field'] and l.get('t') == 'char *' and isinstance(l.get('base'), dict) and isinstance(r.get('base'), dict) and sx(l['base']) != sx(r['base']):
             n += 1
             src = r
 
